@@ -65,6 +65,9 @@ def split_list(after_colon, kind):
 def gen_list_body(rng, name, kind, terminated=True):
     vals = [rng.choice(WSV if kind == "ws" else CMV) for _ in range(rng.randint(1, 6))]
     out = name + ":" + rng.choice(["", " ", " ", "  ", "\t"])
+    if rng.random() < 0.12:
+        # nothing but blanks after the colon: the list starts on the next line
+        out = name + ":" + rng.choice(["", " ", "\t", "  "]) + "\n" + rng.choice([" ", "\t", "  "])
     line_has_value = False
     first_line = True
     if kind == "comma" and rng.random() < 0.15:
